@@ -1,4 +1,4 @@
-import AranyaV.Proofs.DiskIO6
+import AranyaV.Proofs.DiskIO7
 /-!
 # C15 — File-backed graph storage survives crashes
 
@@ -323,11 +323,6 @@ theorem failed_call_keeps_invariant_partial (hL : L.OK) {w : Writer} {d : Disk} 
       (doneAfterF L ck w c f done) D' recs' ∧ (∀ r ∈ recs, r ∈ recs') :=
   stepF_inv_partial hL h c f he hbd
 
-/-- the ghost state right after `create` -/
-def G.init (L : Layout) : G :=
-  { done := none, next := L.rootA, gen := 0, D := L.freeStart, free := L.freeStart, recs := [],
-    atts := [], pa := none }
-
 theorem create_gq (hL : L.OK) : GQ L ck Disk.empty (G.init L) ∧ Link (Writer.create L).1 (G.init L) := by
   have hz : ∀ s, loadValid ck Disk.empty.durable s = none := by
     intro s; unfold loadValid; rw [loadRoot_zero (fun _ _ => rfl)]
@@ -366,7 +361,60 @@ theorem recover_cases_io (hL : L.OK) (cs : List (Call × Fault))
         ∀ r, doneFromF L ck (Writer.create L).1 none cs n = some r → r.gen < w.root.gen) := by
   obtain ⟨q, hl⟩ := create_gq (ck := ck) hL
   have := run_io hL cs _ _ _ [] q hl (fun r h => by rcases h with h | h <;> cases h) hh n χ
+  refine ⟨by simpa [G.init] using this.1, fun w hw => ?_⟩
+  have := (this.2 w hw).1
   simpa [G.init] using this
+
+/-- **records_intact_io.**  Same runs (I/O errors anywhere): every item that some call of the run
+appended completely (`recsF`: the write frontier moved past it — also the head set of a commit
+that failed later) and that ends at or below the recovered `free_offset` is byte-identical in
+the crash image.  Together with `recover_cases_io`: everything the recovered root can refer to
+was synced before its root write and is readable; nothing at or beyond the recovered frontier is
+part of the recovered state. -/
+theorem records_intact_io (hL : L.OK) (cs : List (Call × Fault))
+    (hh : HypsIO L ck (Writer.create L).1 Disk.empty cs) (n : Nat) (χ : List (List Bool)) (w : Writer)
+    (ho : Writer.open L ck ((Disk.empty.execAll ((traceF L ck (Writer.create L).1 cs).take n)).crash χ) = some w) :
+    ∀ rec ∈ recsF L ck (Writer.create L).1 cs, (rec.end_ : Int) ≤ w.root.free →
+      agreeRec ((Disk.empty.execAll ((traceF L ck (Writer.create L).1 cs).take n)).crash χ) rec := by
+  obtain ⟨q, hl⟩ := create_gq (ck := ck) hL
+  have := (run_io hL cs _ _ _ [] q hl (fun r h => by rcases h with h | h <;> cases h) hh n χ).2 w ho
+  simpa [G.init] using this.2.1
+
+/-! ### histories `create; (calls with I/O errors; crash χ; open)*`
+
+`SegmentF = (calls with a `Fault` each, n, χ)`, `histFromF` as `histFrom`; `HistHypsF` states
+`HypsIO` per era against the image that era starts from. -/
+
+/-- **recovered_image_inv_io.**  Also with I/O errors in the era, the generalised invariant holds
+again on every image from which `open` succeeds (no attempt pending, recovered root committed). -/
+theorem recovered_image_inv_io (hL : L.OK) {st st' : HStateF} {s : SegmentF} (hi : HInvF L ck st)
+    (hh : HypsIO L ck st.w st.d s.calls) (hn : st.next L ck s = some st') : HInvF L ck st' :=
+  reopen_invF hL hi hh hn
+
+/-- **recover_cases_io_multi.**  After any history of eras with I/O errors, crashes and successful
+reopens, for a further era with I/O errors anywhere, any crash point and any χ: `open` fails only
+if no commit ever returned `Ok`; otherwise it returns the last commit that returned `Ok` (the root
+recovered by the previous reopen if none since) or a root a commit of this era attempted, newer
+than that. -/
+theorem recover_cases_io_multi (hL : L.OK) (segs : List SegmentF) (st : HStateF)
+    (hh : HistHypsF L ck (HStateF.init L) segs) (h : histFromF L ck (HStateF.init L) segs = some st)
+    (s : SegmentF) (hs : HypsIO L ck st.w st.d s.calls) :
+    (Writer.open L ck (st.image L ck s) = none → doneFromF L ck st.w st.done s.calls s.n = none) ∧
+    ∀ w, Writer.open L ck (st.image L ck s) = some w →
+      some w.root = doneFromF L ck st.w st.done s.calls s.n ∨
+      (w.root ∈ attemptsF L ck st.w s.calls ∧
+        ∀ r, doneFromF L ck st.w st.done s.calls s.n = some r → r.gen < w.root.gen) :=
+  ⟨(hist_io hL segs st hh h s hs).1, fun w hw => ((hist_io hL segs st hh h s hs).2 w hw).1⟩
+
+/-- **records_intact_io_multi.**  In such a history every item of any era that survived all
+earlier reopens, or was appended completely in the current era, and ends at or below the
+recovered `free_offset` is byte-identical in the crash image. -/
+theorem records_intact_io_multi (hL : L.OK) (segs : List SegmentF) (st : HStateF)
+    (hh : HistHypsF L ck (HStateF.init L) segs) (h : histFromF L ck (HStateF.init L) segs = some st)
+    (s : SegmentF) (hs : HypsIO L ck st.w st.d s.calls) (w : Writer)
+    (ho : Writer.open L ck (st.image L ck s) = some w) :
+    ∀ rec ∈ st.allRecs L ck s, (rec.end_ : Int) ≤ w.root.free → agreeRec (st.image L ck s) rec :=
+  ((hist_io hL segs st hh h s hs).2 w ho).2
 
 /-- the pointwise checksum hypothesis implies the mask form used by the fault-free theorems -/
 theorem tornOKp_implies_tornOK {old : Img} {s : Nat} {a : Root} (h : TornOKp ck old s a) :
